@@ -18,6 +18,7 @@ from .mir import norm
 
 OPT = "std::option::Option"
 RES = "std::result::Result"
+CF_ = "std::ops::ControlFlow"
 VARIANTS = {OPT: {"0": "None", "1": "Some"}, RES: {"0": "Ok", "1": "Err"},
             "std::ops::ControlFlow": {"0": "Continue", "1": "Break"}}
 CF = "std::ops::ControlFlow"
@@ -287,6 +288,27 @@ class Desugarer:
             """D = fn(a..); goto T"""
             return self.call(B, fn, a, D, T, stack)
 
+        def ret_ty(fn_):
+            """declared result type of the closure / fn handed to the combinator ('' when unknown)"""
+            if fn_ and fn_[0] == "closure":
+                cb_ = self.P.bodies.get(fn_[1])
+                if cb_ is not None:
+                    return str(cb_.raw["locals"][0]["ty"])
+            return ""
+
+        def try_f(kind_, ty_, dty_=""):
+            """callee record of a synthetic Try::branch / from_residual / from_output on a value of type ty_"""
+            base = {"branch": "std::ops::Try::branch", "from_output": "std::ops::Try::from_output",
+                    "from_residual": "std::ops::FromResidual::from_residual"}[kind_]
+            w = base
+            if ty_.startswith(("std::result::Result<", "core::result::Result<")):
+                w = "<%s as std::ops::Try>::%s" % (ty_, kind_) if kind_ != "from_residual" else \
+                    "<%s as std::ops::FromResidual<std::result::Result<std::convert::Infallible, _>>>::from_residual" % (dty_ or ty_)
+            elif ty_.startswith(("std::option::Option<", "core::option::Option<")):
+                w = "<%s as std::ops::Try>::%s" % (ty_, kind_) if kind_ != "from_residual" else \
+                    "<%s as std::ops::FromResidual<std::option::Option<std::convert::Infallible>>>::from_residual" % (dty_ or ty_)
+            return {"def": base, "written": w, "resolved": w if w != base else None, "resolved_args": None, "ikind": "Item", "local": False}
+
         short = name.rsplit("::", 1)[-1]
         owner = name.rsplit("::", 1)[0]
         if self.closures_only and short in ("unwrap_or", "ok_or", "or", "ok", "err", "transpose", "then_some"):
@@ -487,6 +509,63 @@ class Desugarer:
                     raw["blocks"][sw_blk]["stmts"] = sts
                     raw["blocks"][sw_blk]["term"] = sw
                     return finish([], B.goto(header))
+        if name in ("std::iter::Iterator::try_fold", "std::iter::Iterator::fold") and len(args) == 3 and fnarg(2):
+            # acc = init; loop { match it.next() { None => break, Some(x) => acc = f(acc, x) [?] } }
+            fn = fnarg(2)
+            it = B.local()
+            acc = B.local()
+            pre = [B.assign(it, B.use(args[0])), B.assign(acc, B.use(args[1]))]
+            nf = {"def": "std::iter::Iterator::next", "written": "std::iter::Iterator::next", "resolved": None,
+                  "resolved_args": None, "ikind": "Item", "local": False}
+            item = B.local()
+            sw_blk = B.block()
+            header = B.block()
+            hs = []
+            if short == "fold":
+                itref = B.local()
+                hs.append(B.assign(itref, {"k": "ref", "mut": True, "place": {"l": it, "p": []}}))
+                nxt_arg = B.mv(itref)
+            else:
+                nxt_arg = B.cp(it)
+            raw["blocks"][header]["stmts"] = hs
+            raw["blocks"][header]["term"] = {"k": "call", "f": nf, "args": [nxt_arg], "dest": {"l": item, "p": []},
+                                             "target": sw_blk, "unwind": None, "span": B.span}
+            r = B.local()
+            if short == "fold":
+                after = B.block([B.assign(acc, B.use(B.mv(r)))], B.goto(header))
+                body_entry = self.call(B, fn, [B.mv(acc), pay(item, OPT, "Some")], r, after, stack)
+                done = ret_block(B.use(B.mv(acc)))
+            else:
+                br = B.local()
+                brsw = B.block()
+                rty = ret_ty(fn)
+                dty = str(raw["locals"][D]["ty"])
+                tf = try_f("branch", rty)
+                after = B.block([], {"k": "call", "f": tf, "args": [B.mv(r)], "dest": {"l": br, "p": []}, "target": brsw,
+                                     "unwind": None, "span": B.span})
+                res = B.local()
+                ff = try_f("from_residual", rty, dty)
+                brk = B.block([B.assign(res, B.use(B.mv(br, [{"k": "downcast", "variant": "Break", "vi": 1},
+                                                             {"k": "field", "i": 0, "name": "0", "adt": CF}])))],
+                              {"k": "call", "f": ff, "args": [B.mv(res)], "dest": {"l": D, "p": []}, "target": T,
+                               "unwind": None, "span": B.span})
+                cont = B.block([B.assign(acc, B.use(B.mv(br, [{"k": "downcast", "variant": "Continue", "vi": 0},
+                                                              {"k": "field", "i": 0, "name": "0", "adt": CF}])))], B.goto(header))
+                d = B.local("isize")
+                un = B.block()
+                raw["blocks"][brsw]["stmts"] = [B.assign(d, {"k": "discriminant", "place": {"l": br, "p": []}, "adt": CF,
+                                                             "variants": dict(VARIANTS[CF])})]
+                raw["blocks"][brsw]["term"] = {"k": "switch", "discr": B.mv(d), "dty": "isize",
+                                               "targets": [["0", cont], ["1", brk]], "otherwise": un, "span": B.span}
+                body_entry = self.call(B, fn, [B.mv(acc), pay(item, OPT, "Some")], r, after, stack)
+                of = {"def": "std::ops::Try::from_output", "written": "std::ops::Try::from_output", "resolved": None,
+                      "resolved_args": None, "ikind": "Item", "local": False}
+                done = B.block([], {"k": "call", "f": of, "args": [B.mv(acc)], "dest": {"l": D, "p": []}, "target": T,
+                                    "unwind": None, "span": B.span})
+            sts, sw = B.switch_variant(item, OPT, {"Some": body_entry, "None": done})
+            raw["blocks"][sw_blk]["stmts"] = sts
+            raw["blocks"][sw_blk]["term"] = sw
+            return finish(pre, B.goto(header))
         if name in ("std::iter::Iterator::try_for_each", "std::iter::Iterator::for_each",
                     "std::iter::Iterator::any", "std::iter::Iterator::all") and fnarg(1):
             fn = fnarg(1)
@@ -518,13 +597,13 @@ class Desugarer:
                 # r = f(item); match Try::branch(r) { Continue(()) => continue, Break(res) => return from_residual(res) }
                 br = B.local()
                 brsw = B.block()
-                tf = {"def": "std::ops::Try::branch", "written": "std::ops::Try::branch", "resolved": None,
-                      "resolved_args": None, "ikind": "Item", "local": False}
+                rty = ret_ty(fn)
+                dty = str(raw["locals"][D]["ty"])
+                tf = try_f("branch", rty)
                 after = B.block([], {"k": "call", "f": tf, "args": [B.mv(r)], "dest": {"l": br, "p": []}, "target": brsw,
                                      "unwind": None, "span": B.span})
                 res = B.local()
-                ff = {"def": "std::ops::FromResidual::from_residual", "written": "std::ops::FromResidual::from_residual",
-                      "resolved": None, "resolved_args": None, "ikind": "Item", "local": False}
+                ff = try_f("from_residual", rty, dty)
                 brk = B.block([B.assign(res, B.use(B.mv(br, [{"k": "downcast", "variant": "Break", "vi": 1},
                                                              {"k": "field", "i": 0, "name": "0", "adt": "std::ops::ControlFlow"}])))],
                               {"k": "call", "f": ff, "args": [B.mv(res)], "dest": {"l": D, "p": []}, "target": T,
